@@ -17,7 +17,7 @@ BASE_TYPES = {
     'std::nullptr_t': 'void *', 'nullptr_t': 'void *', 'std::uint64_t': 'unsigned long', 'uint64_t': 'unsigned long',
     'std::max_align_t': 'max_align_t', 'max_align_t': 'max_align_t', 'double': 'double', 'float': 'float',
     'long double': 'long double', 'std::uint32_t': 'unsigned int', 'std::int64_t': 'long',
-    'std::true_type': 'struct std__true_type', 'std::false_type': 'struct std__false_type',
+    'std::true_type': 'struct std__integral_constant_bool_1', 'std::false_type': 'struct std__integral_constant_bool_0',
 }
 TRANSPARENT = ('ExprWithCleanups', 'MaterializeTemporaryExpr', 'CXXBindTemporaryExpr', 'ConstantExpr',
                'SubstNonTypeTemplateParmExpr', 'ParenExpr')
@@ -184,6 +184,45 @@ class Emitter:
             raise Abort('record for type %r: %d candidates %s' % (q0, len(cands), [self.tu.scope_name(c) for c in cands][:6]))
         return cands[0]
 
+    def alias_target(self, q):
+        """printed type that is a typedef / alias name -> the aliased type string (or None)"""
+        q = re.sub(r'\b(const|volatile|struct|class|typename)\b', '', q).strip()
+        depth, base = 0, ''
+        for ch in q:
+            if ch == '<':
+                depth += 1
+            elif ch == '>':
+                depth -= 1
+            elif depth == 0:
+                base += ch
+        simple = base.split('::')[-1].strip()
+        if not re.match(r'^[A-Za-z_]\w*$', simple):
+            return None
+        cands = self.alias_index().get(simple, ())
+        targets = set((n['type'].get('desugaredQualType') or n['type'].get('qualType')) for n in cands)
+        targets.discard(None)
+        if len(targets) == 1:
+            return targets.pop()
+        if len(targets) > 1 and '::' in base:
+            d, cut = 0, None
+            for i in range(len(q) - 1, 0, -1):
+                if q[i] == '>':
+                    d += 1
+                elif q[i] == '<':
+                    d -= 1
+                elif d == 0 and q[i - 1:i + 1] == '::':
+                    cut = i - 1
+                    break
+            if cut:
+                try:
+                    outer = self.rec_by_name(q[:cut], 1)
+                except Abort:
+                    return None
+                for c in outer.get('inner', ()):
+                    if c.get('kind') in ('TypeAliasDecl', 'TypedefDecl') and c.get('name') == simple:
+                        return c['type'].get('desugaredQualType') or c['type'].get('qualType')
+        return None
+
     def alias_index(self):
         if not hasattr(self, '_alias_index'):
             idx = {}
@@ -308,10 +347,10 @@ class Emitter:
             return 'void' if len(a) == 1 else self.ctype_s(a[1], ptr)
         m = re.match(r'^std::integral_constant<bool, (true|1)>$', q)
         if m:
-            return 'struct std__true_type'
+            return 'struct std__integral_constant_bool_1'
         m = re.match(r'^std::integral_constant<bool, (false|0)>$', q)
         if m:
-            return 'struct std__false_type'
+            return 'struct std__integral_constant_bool_0'
         q1 = re.sub(r'^(struct|class|enum) ', '', q)
         u = None
         if '<' not in q1:
@@ -321,6 +360,10 @@ class Emitter:
         try:
             rec = self.rec_by_name(q1)
         except Abort as a:
+            if '0 candidates' in str(a):
+                t = self.alias_target(q1)
+                if t is not None and t.strip() != q1:
+                    return self.ctype_s(t, ptr)
             if ptr and '0 candidates' in str(a):
                 # incomplete (forward-declared) class used through a pointer/reference only
                 cn = sanitize(q1)
@@ -435,10 +478,37 @@ class Emitter:
         return fn['kind'] in ('CXXMethodDecl', 'CXXConstructorDecl', 'CXXDestructorDecl', 'CXXConversionDecl') \
             and fn.get('storageClass') != 'static' and f0.get('storageClass') != 'static'
 
+    def first_return(self, fn):
+        def walk(n):
+            if n.get('kind') == 'ReturnStmt':
+                return n
+            if n.get('kind') == 'LambdaExpr':
+                return None
+            for c in n.get('inner', ()):
+                r = walk(c)
+                if r is not None:
+                    return r
+            return None
+        d = self.tu.defn.get(fn['id'], fn)
+        return walk(d)
+
+    def decltype_return(self, fn):
+        """trailing decltype(...) return type: taken from the (typed) operand of the first return statement"""
+        r = self.first_return(fn)
+        if r is None or not r.get('inner'):
+            return 'void', False
+        e = r['inner'][0]
+        t = e['type']
+        q = t.get('desugaredQualType') or t['qualType']
+        return q, e.get('valueCategory') == 'lvalue'
+
     def ret_ctype(self, fn):
         if fn['kind'] in ('CXXConstructorDecl', 'CXXDestructorDecl'):
             return 'void'
         ret, _, _ = fn_type_parts(fn['type'].get('desugaredQualType') or fn['type']['qualType'])
+        if 'decltype(' in ret:
+            q, is_ref = self.decltype_return(fn)
+            return self.ctype_s(q) + (' *' if is_ref else '')
         if ret in ('auto', 'decltype(auto)'):
             raise Abort('undeduced return type in ' + fn.get('name', '?'))
         try:
@@ -456,6 +526,8 @@ class Emitter:
         if fn['kind'] in ('CXXConstructorDecl', 'CXXDestructorDecl'):
             return False
         ret, _, _ = fn_type_parts(fn['type'].get('desugaredQualType') or fn['type']['qualType'])
+        if 'decltype(' in ret:
+            return self.decltype_return(fn)[1]
         return ret.strip().endswith('&')
 
     def signature(self, fn):
@@ -1223,9 +1295,10 @@ class Emitter:
                 return self.materialize(e)
             return self.materialize(e)
         if k == 'CXXScalarValueInitExpr' or k == 'ImplicitValueInitExpr':
-            if self.rec_of_type_safe(e['type']) is not None:
-                return '(%s){0}' % self.ctype(e['type'])
-            return '((%s)0)' % self.ctype(e['type'])
+            ct = self.ctype(e['type'])
+            if self.rec_of_type_safe(e['type']) is not None or ct.startswith('struct '):
+                return '(%s){0}' % ct
+            return '((%s)0)' % ct
         if k == 'LambdaExpr':
             return self.lambda_expr(e)
         if k == 'CXXNewExpr':
@@ -1524,7 +1597,8 @@ class Emitter:
             if len(e.get('inner', ())) == 1:
                 return self.sub(e['inner'][0])
             if not e.get('inner'):
-                return '((%s)0)' % self.ctype(t)
+                ct = self.ctype(t)
+                return ('(%s){0}' % ct) if ct.startswith('struct ') else '((%s)0)' % ct
             raise Abort('init list of non-record type ' + t['qualType'])
         fields = [c for c in rec.get('inner', ()) if c.get('kind') == 'FieldDecl']
         items = []
@@ -1534,8 +1608,13 @@ class Emitter:
                 items.append(self.addr_of(v))
             else:
                 items.append(self.sub(v))
+        def empty_init(v):
+            v = self.strip(v)
+            return v['kind'] in ('ImplicitValueInitExpr', 'CXXScalarValueInitExpr') or (v['kind'] in ('InitListExpr', 'CXXConstructExpr') and all(empty_init(c) for c in v.get('inner', ())))
+        if rec.get('bases') and all(empty_init(v) for v in vals) and not fields:
+            return '(%s){0}' % self.struct_of(rec)      # empty tag object
         if rec.get('bases'):
-            raise Abort('aggregate initialisation of a class with bases')
+            raise Abort('aggregate initialisation of a class with bases: ' + t.get('qualType', ''))
         return '(%s){%s}' % (self.struct_of(rec), ', '.join(items) or '0')
 
     # ---- calls
@@ -1943,7 +2022,10 @@ class Emitter:
         out = []
         out.append('/* generated by cxx2c from the clang AST of the current /repo tree -- do not edit */')
         out.append('#include <stddef.h>\n#include <stdint.h>\n#include <string.h>\n#include <stdlib.h>')
-        out.append('struct std__true_type { char __empty; };\nstruct std__false_type { char __empty; };')
+        have = set(self.structs[r][0] for r in self.struct_order)
+        for tn in ('std__integral_constant_bool_1', 'std__integral_constant_bool_0'):
+            if tn not in have:
+                out.append('struct %s { char __empty; };' % tn)
         out.append('extern int __exc;')
         out.append('void __verif_stop(const char *why);')
         if with_exc:
